@@ -17,6 +17,7 @@ Inductive final_res :=
 | FinErr (e : herr)              (* _readResponse failed *)
 | FinTooMany1xx                  (* "net/http: too many 1xx informational responses" *)
 | FinOk (r : resp) (rest : bytes)
+| FinHeaderTooLarge              (* "server response headers exceeded N bytes; aborted" *)
 | FinFuel.
 
 Definition is_1xx_nonterminal (code : Z) : bool :=
@@ -73,6 +74,38 @@ Fixpoint interim_heads (fuel : nat) (meth : bytes) (bufsize : nat) (s : bytes) :
       | inr (r, rest) =>
           if is_1xx_nonterminal (r_code r) then (r_code r, r_header r) :: interim_heads f meth bufsize rest
           else []
+      end
+  end.
+
+(* Transport.MaxResponseHeaderBytes: pc.readLimit is the budget of ONE response head; readResponse
+   resets it after every informational response, so interim responses do not eat the budget of
+   the final one.  (The code charges raw bytes read from the connection, i.e. up to one bufio
+   buffer more than the head; the model charges the head itself.) *)
+Fixpoint read_final_lim (fuel : nat) (meth : bytes) (bufsize lim : nat) (num1xx : nat) (s : bytes) : final_res :=
+  match fuel with
+  | O => FinFuel
+  | S f =>
+      match read_response_head meth bufsize s with
+      | inl e => FinErr e
+      | inr (r, rest) =>
+          if lim <? length s - length rest then FinHeaderTooLarge
+          else if is_1xx_nonterminal (r_code r) then
+            if max_1xx <? S num1xx then FinTooMany1xx
+            else read_final_lim f meth bufsize lim (S num1xx) rest
+          else FinOk r rest
+      end
+  end.
+
+(* every head of the exchange (interim ones and the final one) is within the limit by itself *)
+Fixpoint heads_fit (fuel : nat) (meth : bytes) (bufsize lim : nat) (s : bytes) : bool :=
+  match fuel with
+  | O => true
+  | S f =>
+      match read_response_head meth bufsize s with
+      | inl _ => true
+      | inr (r, rest) =>
+          (length s - length rest <=? lim) &&
+          (if is_1xx_nonterminal (r_code r) then heads_fit f meth bufsize lim rest else true)
       end
   end.
 
